@@ -470,7 +470,7 @@ static void explore_strings(FrameBase& f, const Gram& g, const ref::LR1& L, Ctx&
             if (cfg.has("C06") || cfg.has("C01")) add_viol(cfg.has("C06") ? "C06" : "C01", "no-termination", f, g, w, "real parse exceeded the step horizon; reference " + std::string(ex.ok ? "accepts" : "rejects"));
             continue;
         }
-        if (ro.bounds || ro.threw) { add_viol("C06", "exception", f, g, w, ro.bounds ? std::string("bounds hook: ") + ro.hit.what : ro.what); continue; }
+        if (ro.bounds || ro.threw) { if (cfg.has("C06")) add_viol("C06", "exception", f, g, w, ro.bounds ? std::string("bounds hook: ") + ro.hit.what : ro.what); continue; }
         std::string real_tree = ro.ok ? show_real(ro.root) : "";
         std::string real_err = ro.err; std::string real_sig = log_sig();
         size_t real_calls = g_obs.log.size(); int real_nodes = ro.ok ? count_nodes_real(ro.root) : 0;
@@ -563,11 +563,12 @@ static void explore_strings(FrameBase& f, const Gram& g, const ref::LR1& L, Ctx&
                 int cap = f.stack_capacity(w.size());
                 bool need_more = ex.max_depth > cap;   // the documented driver itself needs more slots than N + EmptyRulesCount + 1
                 ctr["C12.stack_evals"]++;
-                if (rs.bounds) {
-                    std::string det = std::string("fixed-capacity stack overflow (") + rs.hit.what + ", capacity " + std::to_string(rs.hit.cap) + "); the documented driver needs depth " + std::to_string(ex.max_depth) + ", N+EmptyRulesCount+1 = " + std::to_string(cap);
+                const bool loud_overflow = rs.threw && rs.what.find("capacity") != std::string::npos;   // the library's own check
+                if (rs.bounds || loud_overflow) {
+                    std::string det = std::string("fixed-capacity stack exhausted (") + (rs.bounds ? std::string("silent overrun caught by the hook: ") + rs.hit.what : "exception: " + rs.what) + "); the documented driver needs depth " + std::to_string(ex.max_depth) + ", N+EmptyRulesCount+1 = " + std::to_string(cap) + "; the same input parses with string_view_buffer";
                     const char* kf = need_more ? "stack-capacity-formula" : "";
-                    if (cfg.has("C12")) add_viol("C12", "cstring-stack-overflow", f, g, w, det, kf);
-                    if (cfg.has("C06")) add_viol("C06", "cstring-stack-overflow", f, g, w, det, kf);
+                    if (cfg.has("C12")) add_viol("C12", rs.bounds ? "cstring-stack-overrun" : "cstring-stack-too-small", f, g, w, det, kf);
+                    if (cfg.has("C06") && rs.bounds) add_viol("C06", "cstring-stack-overrun", f, g, w, det, "");   // a silent overrun is undefined behaviour; a loud failure is not
                 } else if (!rs.supported) {
                 } else if (rs.horizon) { if (cfg.has("C06")) add_viol("C06", "no-termination", f, g, w, "cstring_buffer run reached the step horizon"); }
                 else if (rs.ok != ro.ok || ss != real_sig) { if (cfg.has("C06")) add_viol("C06", "buffer-kind-changes-outcome", f, g, w, "cstring_buffer vs string_view_buffer differ"); if (cfg.has("C12")) add_viol("C12", "fixed-stacks-change-outcome", f, g, w, "cstring_buffer (fixed stacks) vs string_view_buffer (vector stacks) differ"); }
